@@ -25,6 +25,10 @@ enum Op {
     Timeouts,
     /// in-memory recovery pass (`recover()`), then complete whatever it marks as decided
     RecoverAndComplete,
+    /// log checkpoint (`truncate_wal()`), taken only at a quiescent moment (no transaction in flight)
+    TruncateWal,
+    /// a vote for transaction t arrives from a shard that is not one of its participants
+    StrayVote(u8),
 }
 
 #[derive(Clone, Debug, PartialEq)]
@@ -182,6 +186,17 @@ impl Subject for TxSubject {
                     }
                 }
             }
+            Op::TruncateWal => {
+                if m.iter().all(|s| matches!(s.st, St::None | St::Committed | St::Aborted)) {
+                    let _ = c.truncate_wal();
+                }
+            }
+            Op::StrayVote(t) => {
+                if let Some(id) = m[*t as usize].id {
+                    // refused live (not a participant / wrong phase); it must not come back on replay either
+                    let _ = c.record_vote(id, 7, PrepareVote::No { reason: "stray".into() });
+                }
+            }
             Op::RecoverAndComplete => {
                 let _ = c.recover();
                 for (id, phase) in c.get_pending_decisions() {
@@ -288,6 +303,16 @@ impl Subject for TxSubject {
         }
         let _ = c.recover();
         let decisions = c.get_pending_decisions();
+        // a second recovery pass after the prepare timeout has elapsed must not reverse a commit decision
+        // the first pass has taken
+        env::clock_advance_ms(3_600_000);
+        let _ = c.recover();
+        let decisions2 = c.get_pending_decisions();
+        for (id, ph) in &decisions {
+            if *ph == TxPhase::Committing && decisions2.iter().any(|(i, p2)| i == id && *p2 == TxPhase::Aborting) {
+                return Err(("commit-decision-reversed-by-second-recovery".into(), format!("recover() decided commit for {id}; a second recover() after the timeout turns it into abort")));
+            }
+        }
         for id in &committed {
             if decisions.iter().any(|(i, ph)| i == id && *ph == TxPhase::Aborting) {
                 return Err(("committed-tx-aborted-after-restart".into(), format!("recover() marks completed commit {id} as Aborting")));
@@ -324,7 +349,7 @@ fn alphabet(level: u8) -> Vec<Op> {
         // minimal: one transaction driven forward
         0 => vec![Op::Begin(0), Op::Yes(0, 0), Op::Yes(0, 1), Op::Commit(0)],
         // one transaction, all outcomes, plus recovery-side calls
-        1 => vec![Op::Begin(0), Op::Yes(0, 0), Op::Yes(0, 1), Op::No(0, 0), Op::No(0, 1), Op::Commit(0), Op::Abort(0), Op::Timeouts, Op::RecoverAndComplete],
+        1 => vec![Op::Begin(0), Op::Yes(0, 0), Op::Yes(0, 1), Op::No(0, 0), Op::No(0, 1), Op::Commit(0), Op::Abort(0), Op::Timeouts, Op::RecoverAndComplete, Op::StrayVote(0), Op::TruncateWal],
         // two transactions
         2 => vec![Op::Begin(0), Op::Yes(0, 0), Op::Yes(0, 1), Op::Commit(0), Op::Abort(0), Op::Begin(1), Op::Yes(1, 0), Op::Yes(1, 1), Op::Commit(1), Op::Timeouts],
         // continuation: recovery calls and a new transaction
@@ -340,6 +365,9 @@ fn prefixes() -> Vec<Vec<Op>> {
         vec![Op::Begin(0), Op::Yes(0, 0), Op::Yes(0, 1)],
         vec![Op::Begin(0), Op::Yes(0, 0), Op::Yes(0, 1), Op::Commit(0)],
         vec![Op::Begin(0), Op::Yes(0, 0), Op::Yes(0, 1), Op::Begin(1), Op::Yes(1, 0), Op::Yes(1, 1)],
+        // a log checkpoint at a quiescent moment, then a new transaction on the checkpointed log
+        vec![Op::Begin(0), Op::Yes(0, 0), Op::Yes(0, 1), Op::Commit(0), Op::TruncateWal],
+        vec![Op::Begin(0), Op::Yes(0, 0), Op::Yes(0, 1), Op::Commit(0), Op::TruncateWal, Op::Begin(0), Op::Yes(0, 0)],
     ]
 }
 
@@ -412,7 +440,7 @@ fn main() {
     }
     let mut rep = Report::new("C13", "fault_enumeration");
     let thorough = rep.thorough();
-    rep.rule("histories: 5 scripted prefixes (reachable by construction) extended by every sequence (quick <=2, thorough <=3) of {begin, yes-vote(via handle_prepare), no-vote, commit, abort, timeout sweep (clock +1h), recover()+complete} over 1-2 transactions x 2 shards, disjoint and overlapping keys; crash images: every I/O-op boundary and every byte cut of every TxWal write; after every image: recover_from_wal, then commit/abort/complete/recover()/cleanup_timeouts probes; epochs 2-3 continue with recovery calls and new transactions. non-trivial = torn image");
+    rep.rule("histories: 7 scripted prefixes (reachable by construction, two of them with a log checkpoint at a quiescent moment) extended by every sequence (quick <=2, thorough <=3) of {begin, yes-vote(via handle_prepare), no-vote, commit, abort, timeout sweep (clock +1h), recover()+complete, a vote from a non-participant shard, truncate_wal() when no transaction is in flight} over 1-2 transactions x 2 shards, disjoint and overlapping keys; crash images: every I/O-op boundary and every byte cut of every TxWal write; after every image: recover_from_wal, then commit/abort/complete/recover()/second recover() after the timeout/cleanup_timeouts probes; epochs 2-3 continue with recovery calls and new transactions. non-trivial = torn image");
     rep.assume("crash model: prefix persistence; TxWal fsyncs every record so acknowledged = call returned; frozen virtual clock (timeouts fire only when the harness advances it)");
     rep.assume("promises: commit()/abort() returning Ok (TxComplete logged), record_vote returning Prepared (logged); timeout sweeps, in-memory abort decisions and complete_* are not logged and promise nothing");
     let results: Vec<Stats> = par::spawn_workers(par::worker_count(), &[]);
@@ -432,7 +460,7 @@ fn main() {
     if let Some(s) = t.sample {
         rep.sample(s);
     }
-    if t.torn_images < 100 || t.distinct_recovered < 5 {
+    if t.violations.is_empty() && (t.torn_images < 100 || t.distinct_recovered < 5) {
         rep.machinery("vacuous: too few torn images / recovered states");
     }
     rep.finish();
